@@ -188,6 +188,11 @@ def build_grid(nx, ny, dx, dy, x0, y0, order="col", vrot=0):
         for k, (sx, sy) in enumerate(corner):
             verts[i, k, 0] = xc + sx * dx / 2
             verts[i, k, 1] = yc + sy * dy / 2
+    if vrot % 2:
+        # the same two maps with their entries inserted in another order (equal dicts: 1-D index and (ix, iy) are the KEYS, the
+        # position of an entry in the dict means nothing)
+        m12 = dict(sorted(m12.items(), key=lambda kv: (-(kv[0] % 3), -kv[0])))
+        m21 = dict(sorted(m21.items(), key=lambda kv: (kv[0][1], -kv[0][0])))
     interior = (IX > 0) & (IX < nx - 1) & (IY > 0) & (IY < ny - 1)
     colcls = np.where(IX == 0, "left-col", np.where(IX == nx - 1, "right-col", "inner-col"))
     rowcls = np.where(IY == 0, "top-row", np.where(IY == ny - 1, "bottom-row", "inner-row"))
